@@ -1,5 +1,6 @@
 import Tmv.Lemmas.BlockStoreOps
 import Tmv.Lemmas.StateStoreRange
+import Tmv.Lemmas.StoreNode
 /-! # C18 — stored chain data stays contiguous and consistent through pruning and crashes
 
 Theorems about the model of `store/store.go` (Tmv/Model/BlockStore.lean) and of the record
@@ -11,18 +12,6 @@ deletes in order, which is stronger than "a batch is one crash unit"). -/
 namespace Tmv.Props.C18
 open Tmv Tmv.BlockStore
 
-/-- what consensus guarantees about the arguments of `SaveBlock` (the store checks none of it):
-positive height, at least one part, the seen commit is for this block, the block's `LastCommit` is
-for the stored previous block, and the block's hash is not the hash of a stored block (implied by
-collision-freedom, since the height is hashed). -/
-structure ValidNext (db : DB) (b : Block) (sc : Commit) : Prop where
-  pos : 0 < b.height
-  parts : 0 < b.total
-  seen : sc = { height := b.height, blockHash := b.hash }
-  last : ∀ m, loadMeta db (loadRange db).2 = some m →
-    b.lastCommit = { height := (loadRange db).2, blockHash := m.hash }
-  fresh : ∀ h m, (loadRange db).1 ≤ h → h ≤ (loadRange db).2 → loadMeta db h = some m → m.hash ≠ b.hash
-
 /-- **SaveBlock is crash consistent.**  From a database that passes the audit, for every valid
 next block, the database after ANY prefix of SaveBlock's writes passes the audit, and after all
 of them the range ends at the new block (base unchanged, or the block's height for an empty store). -/
@@ -32,190 +21,8 @@ theorem save_crash_consistent (db : DB) (b : Block) (sc : Commit) (s' : Store)
     AllPrefixGood db units.flatten ∧ (∀ k, Good (afterUnits db units k)) ∧
     loadRange (applyAll db units.flatten) =
       ((if (loadRange db).1 = 0 then b.height else (loadRange db).1), b.height) ∧
-    s' = openStore (applyAll db units.flatten) := by
-  obtain ⟨hguard, hs', hunits⟩ := saveBlock_units _ _ _ _ _ hs
-  simp only [openStore] at hguard hs'
-  obtain ⟨B, hB⟩ : ∃ B, (loadRange db).1 = B := ⟨_, rfl⟩
-  obtain ⟨H, hH⟩ : ∃ H, (loadRange db).2 = H := ⟨_, rfl⟩
-  rw [hB, hH] at hguard
-  simp only [hB] at hs'
-  simp only [hB]
-  have hpos := hv.pos
-  -- the new base and the descriptor write
-  have hbase' : s'.base = (if B = 0 then b.height else B) := by rw [hs']
-  have hheight' : s'.height = b.height := by rw [hs']
-  rw [hunits, hbase', hheight']
-  have hGood := (good_iff db).1 hG
-  rw [hB, hH] at hGood
-  -- the database before the descriptor write
-  have hr1 : loadRange (applyAll db (savePre b sc)) = loadRange db := by
-    apply loadRange_applyAll_of_not_mem
-    intro w hw
-    simp only [savePre, List.mem_append, List.mem_map, List.mem_range, List.mem_cons, List.mem_nil_iff,
-      or_false] at hw
-    rcases hw with ⟨i, _, rfl⟩ | rfl | rfl | rfl | rfl <;> simp [Write.key]
-  obtain ⟨gparts, gmeta, gidx, gcommit, gseen⟩ := savePre_gets db b sc
-  -- the new tip passes the audit in the final database
-  have hfinalTip : ∀ B', checkAt (apply (applyAll db (savePre b sc)) (.set .bsState (.range B' b.height)))
-      b.height b.height = none := by
-    intro B'
-    rw [checkAt_none_iff]
-    refine ⟨{ height := b.height, hash := b.hash, total := b.total }, b, sc, ?_⟩
-    have hg : ∀ k, k ≠ Key.bsState →
-        get (apply (applyAll db (savePre b sc)) (.set .bsState (.range B' b.height))) k
-          = get (applyAll db (savePre b sc)) k := fun k hk => get_apply_of_ne _ _ _ (by simpa [Write.key] using hk.symm)
-    have hgm := hg (.bmeta b.height) (by simp)
-    have hgp := fun i => hg (.part b.height i) (by simp)
-    have hgi := hg (.hashIdx b.hash) (by simp)
-    have hgs := hg (.seen b.height) (by simp)
-    have hm : loadMeta (apply (applyAll db (savePre b sc)) (.set .bsState (.range B' b.height))) b.height
-        = some { height := b.height, hash := b.hash, total := b.total } := by
-      simp only [loadMeta, hgm, gmeta]
-    refine ⟨hm, rfl, ?_, rfl, rfl, rfl, ?_, ?_, ?_, ?_⟩
-    · simp only [loadBlock, hm, hgp, gparts 0 hv.parts]
-      have : (List.range b.total).all (partIs (apply (applyAll db (savePre b sc))
-          (.set .bsState (.range B' b.height))) b.height b) = true := by
-        simp only [List.all_eq_true, List.mem_range, partIs, beq_iff_eq]
-        intro i hi
-        rw [hgp, gparts i hi]
-      simp [this]
-    · simp only [loadHeightByHash, hgi, gidx]
-    · simp only [Int.lt_irrefl, if_false, loadSeen, hgs, gseen]
-    · rw [hv.seen]
-    · rw [hv.seen]
-  rcases hGood with ⟨hB0, hH0⟩ | ⟨hBpos, hBH, hGF⟩
-  · -- empty store: nothing is in range until the descriptor is written
-    subst hB0; subst hH0
-    have hpre : AllPrefixGood db (savePre b sc) := by
-      intro k
-      have hr : loadRange (applyAll db ((savePre b sc).take k)) = loadRange db := by
-        apply loadRange_applyAll_of_not_mem
-        intro w hw
-        have hw := List.mem_of_mem_take hw
-        simp only [savePre, List.mem_append, List.mem_map, List.mem_range, List.mem_cons,
-          List.mem_nil_iff, or_false] at hw
-        rcases hw with ⟨i, _, rfl⟩ | rfl | rfl | rfl | rfl <;> simp [Write.key]
-      rw [good_iff, hr, hB, hH]; exact Or.inl ⟨rfl, rfl⟩
-    have hrf : loadRange (applyAll db (savePre b sc ++ [.set .bsState (.range b.height b.height)]))
-        = (b.height, b.height) := by
-      rw [applyAll_append, applyAll_cons, applyAll_nil, loadRange_set _ _ _ (by omega)]
-    have hfinal : Good (applyAll db (savePre b sc ++ [.set .bsState (.range b.height b.height)])) := by
-      rw [good_iff, hrf]
-      refine Or.inr ⟨hpos, Int.le_refl _, ?_⟩
-      intro h h1 h2
-      have : h = b.height := by simp only at h1 h2; omega
-      subst this
-      rw [applyAll_append, applyAll_cons, applyAll_nil]
-      exact hfinalTip _
-    have hall : AllPrefixGood db (savePre b sc ++ [.set .bsState (.range b.height b.height)]) := by
-      apply allPrefixGood_append _ _ _ hpre
-      intro k
-      cases k with
-      | zero => simpa [applyAll_nil] using allPrefixGood_last _ _ hpre
-      | succ k =>
-        simp only [List.take_succ_cons, List.take_nil, ← applyAll_append]
-        exact hfinal
-    simp only [if_true]
-    refine ⟨hall, good_afterUnits db units (hunits ▸ ?_), hrf, ?_⟩
-    · rw [hbase', hheight']; simpa using hall
-    · rw [hs']; simp [openStore, hrf]
-  · -- non-empty store: the block is the next height
-    have hn : b.height = H + 1 := by
-      by_cases h : b.height = H + 1
-      · exact h
-      · exact absurd ⟨hBpos, h⟩ hguard
-    have hBne : B ≠ 0 := by omega
-    simp only [hBne, if_false]
-    have hun : ∀ w ∈ savePre b sc, Unused db (loadRange db).1 (loadRange db).2 w := by
-      rw [hB, hH]
-      exact savePre_unused db b sc B H hn (fun h m h1 h2 hm => hv.fresh h m (hB ▸ h1) (hH ▸ h2) hm)
-    have hpre : AllPrefixGood db (savePre b sc) := allPrefixGood_unused db _ hG hun
-    have hrf : loadRange (applyAll db (savePre b sc ++ [.set .bsState (.range B b.height)]))
-        = (B, b.height) := by
-      rw [applyAll_append, applyAll_cons, applyAll_nil, loadRange_set _ _ _ (by omega)]
-    have hfinal : Good (applyAll db (savePre b sc ++ [.set .bsState (.range B b.height)])) := by
-      rw [good_iff, hrf]
-      refine Or.inr ⟨hBpos, by simp only; omega, ?_⟩
-      intro h h1 h2
-      simp only at h1 h2
-      rw [applyAll_append, applyAll_cons, applyAll_nil]
-      by_cases htip : h = b.height
-      · subst htip; exact hfinalTip _
-      · have hhH : h ≤ H := by omega
-        have hold := hGF h h1 hhH
-        -- keys of the old heights are untouched
-        have hkeys : ∀ k, usedAt db H h k → k ≠ .commit H →
-            get (apply (applyAll db (savePre b sc)) (.set .bsState (.range B b.height))) k = get db k := by
-          intro k hk hkc
-          have hkb : k ≠ .bsState := by
-            rintro rfl
-            rcases hk with e1 | ⟨i, e1⟩ | ⟨_, e1⟩ | ⟨_, e1⟩ | ⟨m, _, e1⟩ <;> cases e1
-          rw [get_apply_of_ne _ _ _ (by simpa [Write.key] using hkb.symm)]
-          apply get_savePre_other
-          · intro i e; subst e
-            rcases hk with e1 | ⟨i', e1⟩ | ⟨_, e1⟩ | ⟨_, e1⟩ | ⟨m, _, e1⟩ <;>
-              first | (injection e1; omega) | cases e1
-          · intro e; subst e
-            rcases hk with e1 | ⟨i', e1⟩ | ⟨_, e1⟩ | ⟨_, e1⟩ | ⟨m, _, e1⟩ <;>
-              first | (injection e1; omega) | cases e1
-          · intro e; subst e
-            rcases hk with e1 | ⟨i', e1⟩ | ⟨_, e1⟩ | ⟨_, e1⟩ | ⟨m, hm, e1⟩ <;>
-              first | (injection e1 with e1; exact hv.fresh h m (hB ▸ h1) (hH ▸ hhH) hm e1.symm) | cases e1
-          · rw [hn]; intro e; apply hkc; rw [e]; congr 1; omega
-          · intro e; subst e
-            rcases hk with e1 | ⟨i', e1⟩ | ⟨_, e1⟩ | ⟨_, e1⟩ | ⟨m, _, e1⟩ <;>
-              first | (injection e1; omega) | cases e1
-        by_cases hlt : h < H
-        · -- strictly below the old tip: same branch, same keys
-          rw [checkAt_below_tip _ H b.height h hlt (by omega), ← hold]
-          apply checkAt_congr
-          intro k hk
-          apply hkeys k hk
-          rintro rfl
-          rcases hk with e1 | ⟨i', e1⟩ | ⟨hl, e1⟩ | ⟨_, e1⟩ | ⟨m, _, e1⟩ <;>
-            first | (injection e1; omega) | cases e1
-        · -- the old tip: its commit is now the new block's LastCommit
-          have hhe : h = H := by omega
-          subst hhe
-          obtain ⟨m, blk, c, ok⟩ := (checkAt_none_iff db h h).1 hold
-          rw [checkAt_none_iff]
-          refine ⟨m, blk, b.lastCommit, ?_⟩
-          have hmeta : loadMeta (apply (applyAll db (savePre b sc)) (.set .bsState (.range B b.height))) h
-              = loadMeta db h := by
-            simp only [loadMeta, hkeys _ (Or.inl rfl) (by simp)]
-          have hlast := hv.last m (by rw [hH]; exact ok.hmeta)
-          rw [hH] at hlast
-          refine ⟨hmeta.trans ok.hmeta, ok.metaHeight, ?_, ok.blockHash, ok.blockHeight, ok.blockTotal, ?_, ?_, ?_, ?_⟩
-          · rw [← ok.block]
-            have hp : ∀ i, get (apply (applyAll db (savePre b sc)) (.set .bsState (.range B b.height)))
-                (.part h i) = get db (.part h i) := fun i => hkeys _ (Or.inr (Or.inl ⟨i, rfl⟩)) (by simp)
-            have hpis : ∀ b', partIs (apply (applyAll db (savePre b sc)) (.set .bsState (.range B b.height))) h b'
-                = partIs db h b' := by intro b'; funext i; simp only [partIs, hp]
-            simp only [loadBlock, hmeta, hp, hpis]
-          · rw [← ok.hashIdx]
-            simp only [loadHeightByHash,
-              hkeys _ (Or.inr (Or.inr (Or.inr (Or.inr ⟨m, ok.hmeta, rfl⟩)))) (by simp)]
-          · have : h < b.height := by omega
-            simp only [this, if_true, loadCommit]
-            rw [get_apply_of_ne _ _ _ (by simp [Write.key])]
-            have := gcommit
-            rw [hn] at this
-            have e : h + 1 - 1 = h := by omega
-            rw [e] at this
-            rw [this]
-          · rw [hlast]
-          · rw [hlast]
-    have hall : AllPrefixGood db (savePre b sc ++ [.set .bsState (.range B b.height)]) := by
-      apply allPrefixGood_append _ _ _ hpre
-      intro k
-      cases k with
-      | zero => simpa [applyAll_nil] using allPrefixGood_last _ _ hpre
-      | succ k =>
-        simp only [List.take_succ_cons, List.take_nil, ← applyAll_append]
-        exact hfinal
-    refine ⟨hall, good_afterUnits db units (hunits ▸ ?_), hrf, ?_⟩
-    · rw [hbase', hheight']; simpa [hBne] using hall
-    · rw [hs']; simp [openStore, hrf, hBne]
+    s' = openStore (applyAll db units.flatten) :=
+  save_crash_core db b sc s' units hG hv hs
 
 /-- **PruneBlocks is crash consistent**, for prunes of any number of batches: from a database that
 passes the audit, the database after ANY prefix of the writes of `PruneBlocks(retain)` (descriptor
@@ -224,12 +31,8 @@ argument (`h` instead of `h + 1`) this is false — see `old_flush_base_breaks_a
 theorem prune_crash_consistent (db : DB) (retain : Int) (s' : Store) (n : Nat)
     (units : List (List Write)) (hG : Good db)
     (hp : pruneBlocks (openStore db) db retain = .ok (s', n, units)) :
-    AllPrefixGood db units.flatten ∧ ∀ k, Good (afterUnits db units k) := by
-  obtain ⟨B, H, hr, hB, hBr, hrH, hGF, _, _, hu⟩ := prune_setup db retain s' n units hG hp
-  have hspec := pruneLoop_spec H retain (retain - B).toNat B db [] 0 B (by omega) hrH hr hB
-    (Int.le_refl _) hGF (fun w hw => by cases hw) (fun w hw => by cases hw)
-  rw [← hu] at hspec
-  exact ⟨hspec.1, good_afterUnits db units hspec.1⟩
+    AllPrefixGood db units.flatten ∧ ∀ k, Good (afterUnits db units k) :=
+  prune_crash_core db retain s' n units hG hp
 
 /-- **Pruning removes exactly the heights below the retain height and nothing still needed.**
 After `PruneBlocks(retain)` on an audited store with range `[B,H]`: the range is `[retain,H]`
@@ -394,7 +197,7 @@ private def blk1 : Block :=
 
 example : ValidNext ({} : DB) blk1 { height := 1, blockHash := 7 } :=
   { pos := by decide, parts := by decide, seen := rfl,
-    last := by intro m hm; simp [loadMeta_empty] at hm,
+    last := by intro m _ hm; simp [loadMeta_empty] at hm,
     fresh := by intro h m _ _ hm; simp [loadMeta_empty] at hm }
 
 example : ∃ s' units, saveBlock (openStore ({} : DB)) blk1 true { height := 1, blockHash := 7 } = .ok (s', units) := by
@@ -406,7 +209,7 @@ example : ∃ db, Good db ∧ loadRange db = (1, 1) ∧
   have hr0 : loadRange ({} : DB) = (0, 0) := loadRange_empty
   have hv : ValidNext ({} : DB) blk1 { height := 1, blockHash := 7 } :=
     { pos := by decide, parts := by decide, seen := rfl,
-      last := by intro m hm; simp [loadMeta_empty] at hm,
+      last := by intro m _ hm; simp [loadMeta_empty] at hm,
       fresh := by intro h m _ _ hm; simp [loadMeta_empty] at hm }
   obtain ⟨s', units, hs⟩ : ∃ s' units, saveBlock (openStore ({} : DB)) blk1 true { height := 1, blockHash := 7 } = .ok (s', units) := by
     simp [saveBlock, openStore, hr0]
@@ -571,5 +374,158 @@ example : StateStore.PtrInv
     rw [hget] at hl
     simp at hl
     exact hl.symm
+
+/-! ### the two stores together, over whole histories
+
+`StoreNode.step` is one height of `consensus/state.go finalizeCommit`: `SaveBlock` (unless the
+height is already stored — then the stored block is applied, which is what the handshake does after
+a crash), `ApplyBlock` (`SaveABCIResponses`, `updateState`, `Save`), and, when the application
+returned a retain height, the pruning glue (`PruneBlocks`, then `PruneStates(old base, retain)`).
+A history is any sequence of such steps from the genesis `Save`, each cut after ANY single write to
+either database and continued on the REOPENED stores.  `StoreNode.NInv` is the on-disk invariant:
+`Good` for the block store, `StateStore.SInv` (records present, pointing downwards, full only at
+change / checkpoint heights, LastHeightChanged monotone, loadable, newest records carrying the
+persisted state's change heights) from the block store's base upwards, and the persisted state
+level with the block store's tip or exactly one block behind it. -/
+
+open Tmv.StoreNode in
+/-- the databases reachable by finalizeCommit-style histories with crashes at any single write -/
+inductive Reach2 : StoreNode.D → Prop
+  | genesis (ih : Int) : 1 ≤ ih → Reach2 ((newNode ih).bdb, (newNode ih).sdb)
+  | step (d : StoreNode.D) (fb : StateStore.St) (i : StepIn) (j : Nat) :
+      Reach2 d → Honest d i →
+      Reach2 (applyWs d ((flat (step (reopen d fb) i).units).take j))
+
+/-- the genesis `Save` establishes the combined invariant -/
+theorem genesis_inv (ih : Int) (hih : 1 ≤ ih) :
+    StoreNode.NInv ((StoreNode.newNode ih).bdb, (StoreNode.newNode ih).sdb) := by
+  refine ⟨StateStore.genesisSt ih, ?_, good_empty, Or.inl ⟨by simp [StoreNode.newNode, loadRange_empty], rfl⟩,
+    fun m hp _ _ => by simp [StoreNode.newNode, loadRange_empty] at hp⟩
+  have : StoreNode.lowOf ({} : DB) (StateStore.genesisSt ih) = ih := by
+    simp [StoreNode.lowOf, loadRange_empty, StateStore.genesisSt]
+  simp only [StoreNode.newNode]
+  rw [this]
+  exact StateStore.SInv.genesis ih hih
+
+/-- **C18 for both stores over whole histories**: whatever is on disk after any finalizeCommit-style
+history with crashes at arbitrary single writes satisfies the combined invariant. -/
+theorem two_store_reachable_inv (d : StoreNode.D) (h : Reach2 d) : StoreNode.NInv d := by
+  induction h with
+  | genesis ih hih => exact genesis_inv ih hih
+  | step d fb i j _ hon ih => exact StoreNode.step_prefix_inv d fb i ih hon j
+
+/-- what the combined invariant says height by height -/
+theorem ninv_serves (d : StoreNode.D) (hn : StoreNode.NInv d) (h : Int)
+    (h1 : (loadRange d.1).1 ≤ h) (h2 : h ≤ (loadRange d.1).2) (hne : 0 < (loadRange d.1).2) :
+    checkAt d.1 (loadRange d.1).2 h = none ∧ StateStore.valsLoadable d.2 h = true ∧
+    StateStore.paramsLoadable d.2 h = true := by
+  obtain ⟨st, hS, hG, hR, _⟩ := hn
+  rw [good_iff] at hG
+  rcases hG with ⟨_, h0⟩ | ⟨hB, hBH, hGF⟩
+  · omega
+  · have hlow : StoreNode.lowOf d.1 st = (loadRange d.1).1 := by
+      unfold StoreNode.lowOf
+      have : ¬ (loadRange d.1).2 = 0 := by omega
+      simp only [this, if_false]
+    rw [hlow] at hS
+    have hle : (loadRange d.1).2 ≤ StateStore.saveNext st := by
+      rcases hR with ⟨h0, _⟩ | ⟨_, hL | hW⟩
+      · omega
+      · have : StateStore.saveNext st = (loadRange d.1).2 + 1 := by
+          unfold StateStore.saveNext; rw [hL]; split <;> omega
+        omega
+      · omega
+    exact ⟨hGF h h1 h2, hS.vLoad h h1 (by omega), hS.pLoad h h1 (by omega)⟩
+
+/-- **`two_store_reachable_good`**: after any such history, the combined audit the correspondence
+runs execute — every height in the block store's `[base,height]` has block, parts, meta, hash
+index and commit agreeing AND the state store produces its validator set and consensus params —
+returns "ok" on what is on disk. -/
+theorem two_store_reachable_good (d : StoreNode.D) (h : Reach2 d) : StoreNode.audit d.1 d.2 = none := by
+  have hn := two_store_reachable_inv d h
+  have hG : Good d.1 := by obtain ⟨_, _, hG, _, _⟩ := hn; exact hG
+  unfold StoreNode.audit
+  rcases hr : loadRange d.1 with ⟨B, H⟩
+  simp only
+  rw [good_iff, hr] at hG
+  rcases hG with ⟨hB0, hH0⟩ | ⟨hB, hBH, _⟩
+  · simp only at hB0 hH0; subst hB0; subst hH0; simp
+  · simp only at hB hBH
+    have h0 : ¬ (H = 0 ∧ B = 0) := by omega
+    have h1 : ¬ (B ≤ 0 ∨ B > H) := by omega
+    simp only [h0, h1, if_false]
+    apply StoreNode.node_auditFrom_none
+    intro a ha hb
+    have := ninv_serves d hn a (by rw [hr]; exact ha) (by rw [hr]; simp only; omega) (by rw [hr]; simp only; omega)
+    rw [hr] at this
+    exact this
+
+/-- **the crash window between the block-store write and the state-store write, exactly**: on disk
+after any history, the persisted state is either level with the block store's tip, or exactly one
+block behind it (`saveNext st` = the stored tip: `SaveBlock` completed, `Save` has not — what the
+handshake repairs by re-applying the stored block).  In BOTH cases the full audit of `[base,height]`
+holds (`two_store_reachable_good`): the validator record of the tip and of the height after it and
+the params record of the tip were written by the previous `Save`. -/
+theorem crash_window_exact (d : StoreNode.D) (h : Reach2 d) :
+    ∃ st, StateStore.loadState d.2 = some st ∧
+      (((loadRange d.1).2 = 0 ∧ st.lastBlockHeight = 0) ∨
+       (0 < (loadRange d.1).2 ∧ st.lastBlockHeight = (loadRange d.1).2) ∨
+       (0 < (loadRange d.1).2 ∧ (loadRange d.1).2 = StateStore.saveNext st ∧
+         StateStore.valsLoadable d.2 ((loadRange d.1).2 + 1) = true)) := by
+  obtain ⟨st, hS, hG, hR, _⟩ := two_store_reachable_inv d h
+  refine ⟨st, hS.state, ?_⟩
+  rcases hR with ⟨h0, hL⟩ | ⟨hp, hL | hW⟩
+  · exact Or.inl ⟨h0, hL⟩
+  · exact Or.inr (Or.inl ⟨hp, hL⟩)
+  · refine Or.inr (Or.inr ⟨hp, hW, ?_⟩)
+    rw [good_iff] at hG
+    rcases hG with ⟨_, h0⟩ | ⟨hB, hBH, _⟩
+    · omega
+    · have hlow : StoreNode.lowOf d.1 st = (loadRange d.1).1 := by
+        unfold StoreNode.lowOf
+        have : ¬ (loadRange d.1).2 = 0 := by omega
+        simp only [this, if_false]
+      rw [hlow] at hS
+      exact hS.vLoad _ (by omega) (by omega)
+
+/-- **the pointer invariant is no longer a hypothesis**: on every reachable disk state, every
+write prefix of `PruneStates(from, to)` for a `to` inside the served range keeps every height from
+`to` up to the newest record loadable (validators) / up to the state's next height (params). -/
+theorem state_store_serves_range (d : StoreNode.D) (hr : Reach2 d) (frm to : Int) (j : Nat) (h : Int) :
+    ∃ st, StateStore.loadState d.2 = some st ∧
+      (StoreNode.lowOf d.1 st ≤ to → to ≤ StateStore.saveNext st → to ≤ h →
+        (h ≤ StateStore.saveNext st + 1 → StateStore.valsLoadable
+          (StateStore.applyAll d.2 ((StateStore.pruneStates d.2 frm to).1.flatten.take j)) h = true) ∧
+        (h ≤ StateStore.saveNext st → StateStore.paramsLoadable
+          (StateStore.applyAll d.2 ((StateStore.pruneStates d.2 frm to).1.flatten.take j)) h = true)) := by
+  obtain ⟨st, hS, _, _, _⟩ := two_store_reachable_inv d hr
+  refine ⟨st, hS.state, fun h1 h2 h3 => ?_⟩
+  have := hS.prune_prefix frm to h1 h2 j
+  exact ⟨fun h4 => this.vLoad h h3 h4, fun h4 => this.pLoad h h3 h4⟩
+
+/-- continuing WITHOUT a crash is covered by `Reach2.step` too: after a complete step the volatile
+`BlockStore{base,height}` and in-memory `State` of the node are exactly what reopening the two
+databases gives, so the next step of an uncrashed node is the next step of the reopened one. -/
+theorem uncrashed_continuation_is_reopen (d : StoreNode.D) (h : Reach2 d) (fb fb' : StateStore.St)
+    (i : StoreNode.StepIn) (hon : StoreNode.Honest d i) :
+    (StoreNode.step (StoreNode.reopen d fb) i).node =
+      StoreNode.reopen (StoreNode.applyWs d (StoreNode.flat (StoreNode.step (StoreNode.reopen d fb) i).units)) fb' :=
+  StoreNode.step_node_eq_reopen d fb fb' i (two_store_reachable_inv d h) hon
+
+/-- non-vacuity: a history exists (genesis at initial height 1), and an honest first proposal -/
+example : Reach2 ((StoreNode.newNode 1).bdb, (StoreNode.newNode 1).sdb) := Reach2.genesis 1 (by decide)
+
+/-- … and the states after any write prefix of an honest first step are reachable -/
+example (j : Nat) : Reach2 (StoreNode.applyWs ((StoreNode.newNode 1).bdb, (StoreNode.newNode 1).sdb)
+    ((StoreNode.flat (StoreNode.step (StoreNode.reopen ((StoreNode.newNode 1).bdb, (StoreNode.newNode 1).sdb)
+      (StoreNode.genesis 1)) { id := 7, parts := 2, vu := true, pu := false, retain := 0 }).units).take j)) :=
+  Reach2.step _ _ _ j (Reach2.genesis 1 (by decide))
+    { sc := rfl, parts := by decide,
+      fresh := by intro h m _ _ hm; simp [StoreNode.newNode, loadMeta_empty] at hm }
+
+example : StoreNode.Honest ((StoreNode.newNode 1).bdb, (StoreNode.newNode 1).sdb)
+    { id := 7, parts := 2, vu := true, pu := false, retain := 0 } :=
+  { sc := rfl, parts := by decide,
+    fresh := by intro h m _ _ hm; simp [StoreNode.newNode, loadMeta_empty] at hm }
 
 end Tmv.Props.C18
